@@ -431,12 +431,9 @@ def _h_dgram(world: World, flavour: str) -> None:
     baseline = world.choose("swarm.faults", 3) == 0  # a third of the runs: socket always writable, no events
     room0 = None if baseline else world.pick("room0", (0, 0, 1, 3, None))
     nevents = 0 if baseline else world.choose("nevents", 6)
-    kinds: tuple[str, ...] = ("open", "room", "block", "cancel", "aclose", "aclose_cancel")
-    if flavour == "listener" and getattr(world, "avoid_known", True):
-        # finding C20/dgram-listener/stranded-after-forced-close* (DatagramListenerSocketAdapter.aclose() has no abort when it
-        # is cancelled, unlike the stream adapter and the datagram endpoint): input class = "a cancelled local aclose() on the
-        # datagram listener"; 80 % of the runs do not generate it so that it cannot shadow the rest of the harness
-        kinds = kinds[:-1]
+    # (finding C20/dgram-listener/stranded-after-forced-close*, D21, is fixed in /repo: a cancelled local aclose() is generated
+    #  on the listener like everywhere else; world.avoid_known is not consulted)
+    kinds = ("open", "room", "block", "cancel", "aclose", "aclose_cancel")
     events = _draw_events(world, nevents, kinds, nsenders)
     st: dict[str, Any] = {"closing": False, "closer": None, "sock": None, "forced": False, "forcer": None}
     # fault "sendto itself fails" (ECONNREFUSED / EPIPE / ECONNRESET for calls n .. n+k-1).  asyncio's datagram transport reports an
